@@ -210,6 +210,7 @@ def run(ck):
             (b, mode, target, recs, hdr), res = results[0]
             ck.sample({"mode": mode, "target": target, "emitted": e2e.struct_body(res.get("out", ""), target)[:200] if mode == "opaque" else "(not defined)"})
         cpp_opaque_instantiations(ck, bindgen, tmp, quick)
+        cpp_opaque_bases(ck, bindgen, tmp)
         # ---- functions, variables, items, files
         d = os.path.join(tmp, "fs")
         os.makedirs(os.path.join(d, "sub"))
@@ -300,6 +301,50 @@ def cpp_opaque_instantiations(ck, bindgen, tmp, quick):
                 if rr is not None and rr != c:
                     ck.violation("C10-container-layout:opaque-instantiation:%s" % sorted(rec.features)[0], "a record holding an opaque template instantiation does not keep its C++ layout",
                                  dict(base, record=rec.name, clang=c, rustc=rr))
+
+
+def cpp_opaque_bases(ck, bindgen, tmp):
+    """C++: an opaque type as a base class (empty and non-empty): the derived type must keep its C++ layout"""
+    d = os.path.join(tmp, "cppbase")
+    os.makedirs(d)
+    body = "struct E {};\nstruct B { short s; };\nstruct V { virtual void f(); long q; };\nstruct DE : E { int x; };\nstruct DB : B { char c; };\nstruct DV : V { char c; };\nstruct DM : E, B { int y; };\n"
+    open(os.path.join(d, "t.hpp"), "w").write(body)
+    recs = []
+    for n, ms in (("DE", ["x"]), ("DB", ["c"]), ("DV", ["c"]), ("DM", ["y"])):
+        rec = e2e.Rec(n)
+        rec.members = [{"name": m, "decl": "int " + m, "bitfield": None, "anon": False} for m in ms]
+        recs.append(rec)
+    probe = '#include <cstdio>\n#include <cstddef>\n#include "t.hpp"\nint main() {\n'
+    for rec in recs:
+        probe += '  printf("%s %%zu %%zu", sizeof(%s), alignof(%s));\n' % (rec.name, rec.name, rec.name)
+        for m in rec.members:
+            probe += '  printf(" %s=%%zu", offsetof(%s, %s));\n' % (m["name"], rec.name, m["name"])
+        probe += '  printf("\\n");\n'
+    probe += "  return 0; }\n"
+    open(os.path.join(d, "p.cpp"), "w").write(probe)
+    rc, o, e = sh2(["clang++", "-std=c++14", "-w", "-Wno-invalid-offsetof", "-o", "p", "p.cpp"], cwd=d, timeout=120)
+    if rc != 0:
+        raise TieBroken("c10-cpp-probe", e[-800:])
+    rc, o, e = sh2(["./p"], cwd=d, timeout=60)
+    cn = e2e.parse_numbers(o)
+    flags = ["--opaque-type", "^E$", "--opaque-type", "^B$", "--opaque-type", "^V$", "--no-layout-tests"]
+    rc, out, err = sh2([bindgen, os.path.join(d, "t.hpp")] + flags + ["--", "-x", "c++", "-std=c++14"], timeout=120)
+    ck.evaluations += 1
+    ck.nontrivial.add(body)
+    base = {"header": body, "flags": flags + ["--", "-x", "c++"]}
+    if rc != 0:
+        ck.violation("C10-bindgen-failed:cpp-opaque", "bindgen fails on opaque base classes", dict(base, stderr=err[-400:]))
+        return
+    rn, e2_ = e2e.rust_probe(out, recs, d, "cppbase")
+    if rn is None:
+        ck.violation("C10-cpp-opaque-does-not-compile:base", "bindings with opaque base classes do not compile", dict(base, rustc=e2e.rustc_errors(e2_, 3)))
+        return
+    for rec in recs:
+        c, rr = cn.get(rec.name), rn.get(rec.name)
+        if rr is not None and rr != c:
+            kind = {"DE": "empty", "DM": "empty", "DB": "data", "DV": "virtual"}[rec.name]
+            ck.violation("C10-container-layout:opaque-base:%s" % kind, "a class derived from an opaque base does not keep its C++ layout",
+                         dict(base, record=rec.name, clang=c, rustc=rr, emitted=e2e.struct_body(out, rec.name)[:200]))
 
 
 def replay(ck, path):
